@@ -164,6 +164,8 @@ def random_arrangement(rng, big=False):
         return out
 
     arr = items(0, rng.randint(1, 10 if big else 6))
+    if arr[0][0] == "R" and len(arr[0]) > 2 and arr[0][2] == "field":
+        arr[0][2] = "para"      # a field list that opens a document is file-wide metadata (Sphinx drops it from the tree)
     if rng.random() < 0.3:
         # one or two headings: everything after a heading is inside its section
         k = rng.randint(0, len(arr))
